@@ -2,7 +2,7 @@
    on its local shards, over any history, is the iteration of Optimizer.group_step over the blocks of its non-empty local
    tensors (fully_shard_eq_serial_on_local + ComposeMasks.spec_run_is_group_step_iteration). *)
 From Coq Require Import ZArith List Bool Lia.
-From Shampoo Require Import Scalar Optimizer Masks MasksProofs OptimizerMasks FullyShard FullyShardProofs ComposeMasks.
+From Shampoo Require Import Scalar Optimizer Dist DistProofs Masks MasksProofs OptimizerMasks FullyShard FullyShardProofs ComposeMasks.
 Import ListNotations.
 
 Section ComposeFullyShard.
@@ -43,3 +43,118 @@ Section ComposeFullyShard.
     - apply Hu. exact Hp.
   Qed.
 End ComposeFullyShard.
+
+(* ---- HybridShard: every rank (i, s) of every R x S mesh follows the update rule on the local tensors of its column ---- *)
+Section ExtLemmas.
+  Context {bstate grad value : Type}.
+  Variables b1 b2 : Z -> bstate -> value -> grad -> bstate * value.
+  Hypothesis Hext : forall t st v g, b1 t st v g = b2 t st v g.
+
+  Lemma blockwise_ext t : forall lgr sts vals, blockwise b1 t lgr sts vals = blockwise b2 t lgr sts vals.
+  Proof.
+    induction lgr as [|og lgr IH]; intros [|st sts] [|v vals]; cbn; try reflexivity.
+    rewrite IH. f_equal. unfold block_update. destruct og; [apply Hext|reflexivity].
+  Qed.
+
+  Lemma spec_step_ext lay s pg : spec_step b1 lay s pg = spec_step b2 lay s pg.
+  Proof. unfold spec_step. destruct s as [[t vals] sts]. rewrite blockwise_ext. reflexivity. Qed.
+
+  Lemma spec_run_ext lay : forall h s, spec_run b1 lay s h = spec_run b2 lay s h.
+  Proof.
+    unfold spec_run. induction h as [|pg h IH]; intros s; cbn; [reflexivity|].
+    rewrite spec_step_ext. apply IH.
+  Qed.
+End ExtLemmas.
+
+Section ComposeHybrid.
+  Context {F : Type} (Op : ops F) (c : cfg (F:=F)).
+
+  Definition ost_empty : ostate (F:=F) := (@nil nat, Optimizer.mkS [] [] [] [] [] [] []).
+
+  Lemma bstep_of_opt t st v g :
+    bstep_of (opt_bstep Op c) (fun _ q => q) (fun x => x) t st v g = opt_bstep Op c t st v g.
+  Proof. unfold bstep_of. destruct (opt_bstep Op c t st v g); reflexivity. Qed.
+
+  Lemma b_w_mk_blocks : forall (vals : list (list F)) (sts : list (ostate (F:=F))),
+    length vals = length sts -> map (b_w (F:=F)) (mk_blocks vals sts) = vals.
+  Proof.
+    induction vals as [|v vals IH]; intros [|st sts] Hl; cbn in *; try discriminate; [reflexivity|].
+    f_equal. apply IH. lia.
+  Qed.
+
+  Theorem hybrid_ranks_follow_update_rule :
+    forall (nblk : list Z -> nat) (R S gs nextra : nat) (gshapes : list (list Z)) (owner : nat -> nat -> nat) (nbytes : nat -> nat)
+           (hs : list (hints (F:=F) * (nat -> pgrads (ograd (F:=F)))))
+           (v0 : nat -> list (ovalue (F:=F))) (st0 : nat -> list (ostate (F:=F))) (b0 : nat -> list (ovalue (F:=F))),
+      let H := map snd hs in
+      let hlsS := fun s => map (local_shape S s) gshapes in
+      let lay := fun s => all_local_layout nextra (map nblk (locals_of (hlsS s))) in
+      0 < S -> 0 < gs -> R = R / gs * gs ->
+      (forall s b, s < S -> b < hnb nblk S gshapes s -> owner s b < gs) ->
+      (forall s, s < S -> length (v0 s) = hnb nblk S gshapes s /\ length (st0 s) = hnb nblk S gshapes s) ->
+      (forall s, s < S -> Forall (fs_wf_input nblk (hlsS s)) (map (fun pgs => pgs s) H)) ->
+      (forall s, s < S -> Forall (fun p => uniform_l (fst p) (local_grads (lay s) (restrict (hlsS s) (snd p s)))) hs) ->
+      exists cl,
+        hy_run R S (hP nblk [] ost_empty (opt_bstep Op c) (fun x => x) (fun _ q => q) R S gs gshapes owner nbytes)
+               (map (hentry_of nblk S gshapes) H) (hy_init R S v0 st0 b0) = Some cl /\
+        forall i s, i < R -> s < S ->
+          vals (cget cl (hrank S i s))
+          = map (b_w (F:=F))
+                (snd (model_run_l Op c (map (fun p => (fst p, local_grads (lay s) (restrict (hlsS s) (snd p s)))) hs) 0%Z
+                                  (mk_blocks (v0 s) (st0 s)))).
+  Proof.
+    intros nblk R S gs nextra gshapes owner nbytes hs v0 st0 b0 H hlsS lay HS Hgs HR Hown Hlen Hwf Hu.
+    destruct (hybrid_eq_fully_plus_ddp nblk [] ost_empty (opt_bstep Op c) (fun x => x) (fun _ q => q)
+                R S gs nextra gshapes owner nbytes H v0 st0 b0 HS Hgs HR Hown Hlen Hwf) as [cl [Hrun Hall]].
+    exists cl. split; [exact Hrun|]. intros i s Hi Hs.
+    destruct (Hall i s Hi Hs) as [fs [Hfs [Hvals _]]]. rewrite Hvals.
+    destruct (Hlen s Hs) as [Hv Hst].
+    assert (Hnb : hnb nblk S gshapes s = lsum (map nblk (locals_of (hlsS s))))
+      by (unfold hnb, hls, fs_nbs; rewrite fs_params_filter; reflexivity).
+    rewrite Hnb in Hv, Hst.
+    (* the FullyShard theorem for the same run *)
+    pose proof (fully_shard_eq_serial_on_local nblk (bstep_of (opt_bstep Op c) (fun _ q => q) (fun x => x)) nextra gshapes S s
+                  (v0 s) (st0 s) (map (fun pgs => pgs s) H) Hv Hst (Hwf s Hs)) as [fs' [Hfs' [_ Hobs]]].
+    assert (E : Ok fs = Ok fs') by (etransitivity; [symmetry; exact Hfs | exact Hfs']). injection E as <-.
+    (* spec_run with the optimizer's block step = iteration of group_step *)
+    rewrite (spec_run_ext _ _ bstep_of_opt) in Hobs. fold (hlsS s) in Hobs. fold (lay s) in Hobs.
+    pose (hs' := map (fun p : hints (F:=F) * (nat -> pgrads (ograd (F:=F))) => (fst p, restrict (hlsS s) (snd p s))) hs).
+    assert (E1 : map (restrict (hlsS s)) (map (fun pgs => pgs s) H) = map snd hs')
+      by (unfold hs', H; rewrite !map_map; reflexivity).
+    assert (E2 : map (fun p => (fst p, local_grads (lay s) (restrict (hlsS s) (snd p s)))) hs
+                 = map (fun p => (fst p, local_grads (lay s) (snd p))) hs') by (unfold hs'; rewrite map_map; reflexivity).
+    rewrite E1 in Hobs. rewrite E2.
+    assert (Hiter := spec_run_is_group_step_iteration Op c (lay s) hs' 0%Z (v0 s) (st0 s) (lsum (map nblk (locals_of (hlsS s)))) Hv Hst).
+    assert (Hpre : Forall (fun p => length (local_grads (lay s) (snd p)) = lsum (map nblk (locals_of (hlsS s)))
+                                    /\ uniform_l (fst p) (local_grads (lay s) (snd p))) hs').
+    { assert (El : fs_layout nblk nextra (hlsS s) = lay s)
+        by (unfold lay, fs_layout, fs_nbs; rewrite fs_params_filter; reflexivity).
+      pose proof (fs_wf_history nblk nextra (hlsS s) (map (fun pgs => pgs s) H) (Hwf s Hs)) as Hw. rewrite El in Hw.
+      unfold wf_history in Hw. pose proof (Hu s Hs) as Hus. rewrite Forall_forall in *.
+      intros p' Hp'. unfold hs' in Hp'. apply in_map_iff in Hp'. destruct Hp' as [p [<- Hp]]. cbn [fst snd]. split.
+      - rewrite <- (all_local_n_local nextra (map nblk (locals_of (hlsS s)))). apply local_grads_length; [apply all_local_wf|].
+        rewrite <- (fs_grads_restrict (hlsS s) (snd p s)). apply Hw. apply in_map.
+        unfold H. rewrite map_map. apply (in_map (fun x => snd x s)). exact Hp.
+      - apply Hus. exact Hp. }
+    assert (Hobs' : observable fs = spec_run (opt_bstep Op c) (lay s) (0%Z, v0 s, st0 s) (map snd hs')) by exact Hobs.
+    assert (Hiter' : model_run_l Op c (map (fun p => (fst p, local_grads (lay s) (snd p))) hs') 0%Z (mk_blocks (v0 s) (st0 s))
+                     = (let '(t', vals', sts') := spec_run (opt_bstep Op c) (lay s) (0%Z, v0 s, st0 s) (map snd hs') in
+                        (t', mk_blocks vals' sts'))) by exact (Hiter Hpre).
+    clear Hobs Hiter. rewrite Hiter'. rewrite <- Hobs'. unfold observable. cbn [snd].
+    symmetry. apply b_w_mk_blocks.
+    (* lengths of the final state: from the specification run *)
+    assert (Hlens : forall h0 t vs ss, length vs = length ss ->
+              Forall (fun pg => length (local_grads (lay s) pg) = length vs) h0 ->
+              let '(_, vs', ss') := spec_run (opt_bstep Op c) (lay s) (t, vs, ss) h0 in length vs' = length ss').
+    { induction h0 as [|pg h0 IHh]; intros t vs ss Hl Hf; cbn; [exact Hl|].
+      inversion Hf as [|x l Hx Hrest]; subst. unfold spec_run in IHh.
+      unfold spec_step at 1.
+      apply IHh.
+      - rewrite !map_length. reflexivity.
+      - rewrite map_length. rewrite blockwise_length by congruence. rewrite Hx. exact Hrest. }
+    specialize (Hlens (map snd hs') 0%Z (v0 s) (st0 s) ltac:(congruence)).
+    rewrite <- Hobs' in Hlens. unfold observable in Hlens. apply Hlens.
+    rewrite Forall_forall in *. intros pg Hpg. apply in_map_iff in Hpg. destruct Hpg as [p' [<- Hp']].
+    rewrite Hv. exact (proj1 (Hpre p' Hp')).
+  Qed.
+End ComposeHybrid.
